@@ -5,6 +5,9 @@ import IodineModel.Drv.Common
 import IodineModel.Drv.Login
 import IodineModel.Drv.FwQuery
 import IodineModel.Drv.Slots
+import IodineModel.Drv.WireRead
+import IodineModel.Drv.Server
+import IodineModel.Drv.Shell
 /-
 Line-protocol driver: one operation per input line, one result line per operation.
 The C harnesses (harness/*.c) answer the same lines by calling the real code; the
@@ -15,13 +18,14 @@ open Iodine
 structure DrvState where
   fw : FwQuery.Fw := FwQuery.init
   slots : List Users.Slot := []
+  srv : Drv.Server.St := {}
 
 def firstSome (fs : List (List String → Option String)) (toks : List String) : Option String :=
   fs.findSome? (fun f => f toks)
 
 def step (st : DrvState) (line : String) : DrvState × String :=
   let toks := (line.trimAscii.toString.splitOn " ").filter (fun t => t ≠ "")
-  match firstSome [Drv.Codec.handle, Drv.Encoding.handle, Drv.Users.handle, Drv.Login.handle, Drv.Common.handle] toks with
+  match firstSome [Drv.Codec.handle, Drv.Encoding.handle, Drv.Users.handle, Drv.Login.handle, Drv.Common.handle, Drv.WireRead.handle, Drv.Shell.handle] toks with
   | some r => (st, r)
   | none =>
     match Drv.FwQuery.handle st.fw toks with
@@ -29,6 +33,9 @@ def step (st : DrvState) (line : String) : DrvState × String :=
     | none =>
     match Drv.Slots.handle st.slots toks with
     | some (sl, r) => ({ st with slots := sl }, r)
+    | none =>
+    match Drv.Server.handle st.srv toks with
+    | some (sv, r) => ({ st with srv := sv }, r)
     | none => (st, "bad-op")
 
 partial def loop (h : IO.FS.Stream) (out : IO.FS.Stream) (st : DrvState) : IO Unit := do
